@@ -1,10 +1,9 @@
-package simx
+package grpc2
 
 import (
 	"fmt"
 
 	"github.com/sarchlab/akita/v5/mem"
-	"github.com/sarchlab/akita/v5/mem/cache"
 	"github.com/sarchlab/akita/v5/mem/cache/writeback"
 	"github.com/sarchlab/akita/v5/mem/cache/writethroughcache"
 	"github.com/sarchlab/akita/v5/mem/dram"
@@ -13,85 +12,15 @@ import (
 	"github.com/sarchlab/akita/v5/mem/simplebankedmemory"
 	"github.com/sarchlab/akita/v5/messaging"
 	"github.com/sarchlab/akita/v5/noc/directconnection"
+
+	"verif/harness/simx"
 )
 
-// ChainCfg describes a memory hierarchy: requester -> Stages... -> Memory.
-type ChainCfg struct {
-	// Stages, top to bottom: "rob", "wt-around", "wt-evict", "wt-through", "wb".
-	Stages []string `json:"stages"`
-	// Memory: "ideal", "banked1", "banked2", "dram-DDR4", "dram-DDR5",
-	// "dram-HBM2", "dram-HBM3", "dram-GDDR6" (presets are close-page; +"-open" selects the open-page policy).
-	Memory  string `json:"memory"`
-	NumMem  int    `json:"num_mem"`  // 1, or 2 = two controllers interleaved at the line size
-	PortBuf int    `json:"port_buf"` // buffer size of every port
-	Lat     int    `json:"lat"`      // latency knob for caches and the ideal memory
-	MSHR    int    `json:"mshr"`     // MSHR entries of every cache
-	Eager   bool   `json:"eager"`    // driver issue policy
-	Full    bool   `json:"full"`     // build inside a real simulation.Simulation
-	DRAMQ   int    `json:"dramq,omitempty"` // 0 = preset queue sizes, 1 = tiny queues (2 transactions, 2 commands)
-}
-
-// Name is a compact label.
-func (c ChainCfg) Name() string {
-	s := ""
-	for _, st := range c.Stages {
-		s += st + ">"
-	}
-	return fmt.Sprintf("%s%sx%d/b%d/l%d/m%d/e%v", s, c.Memory, c.NumMem, c.PortBuf, c.Lat, c.MSHR, c.Eager)
-}
-
-// Chain is a built hierarchy.
-type Chain struct {
-	Env      *Env
-	Cfg      ChainCfg
-	Driver   *Driver
-	Conn     *directconnection.Comp
-	WB       []*writeback.Comp
-	WT       []*writethroughcache.Comp
-	ROB      []*rob.Comp
-	DRAM     []*dram.Comp
-	Backing  []*mem.Storage // storages of the memory controllers
-	MemTop   []messaging.Port
-	MemComps []messaging.Component
-	Controls []messaging.Port // control ports, top stage first, memories last
-}
-
-// Geometry shared by every cache in the catalogue: 64-byte lines, 2 sets x 2 ways.
-const (
-	LineSize  = 64
-	CacheSets = 2
-	CacheWays = 2
-)
-
-// SameSetLines returns n line addresses that all map to set 0 of every cache in
-// the catalogue and, between them, fall on both interleaved memory controllers.
-func SameSetLines(n int) []uint64 {
-	var out []uint64
-	parity := map[uint64]int{}
-	for line := uint64(1); len(out) < n; line++ {
-		addr := line * LineSize
-		if cache.DirectorySetID(addr, LineSize, CacheSets) != 0 {
-			continue
-		}
-		// keep a balance between even and odd lines
-		if parity[line%2] > parity[1-line%2]+1 {
-			continue
-		}
-		parity[line%2]++
-		out = append(out, addr)
-	}
-	return out
-}
-
-// BuildChain assembles the hierarchy with a scripted driver on top.
-func BuildChain(cfg ChainCfg, ops []MemOp) *Chain {
-	var env *Env
-	if cfg.Full {
-		env = NewFull()
-	} else {
-		env = NewLight()
-	}
-	ch := &Chain{Env: env, Cfg: cfg}
+// buildChainIn is simx.BuildChain with the environment supplied by the caller
+// (so that a customised simulation builder, e.g. with the DB tracer started, can
+// be used). The body is a copy of simx.BuildChain.
+func buildChainIn(env *simx.Env, cfg simx.ChainCfg, ops []simx.MemOp) *simx.Chain {
+	ch := &simx.Chain{Env: env, Cfg: cfg}
 	if cfg.NumMem < 1 {
 		cfg.NumMem = 1
 	}
@@ -124,16 +53,11 @@ func BuildChain(cfg ChainCfg, ops []MemOp) *Chain {
 			c := simplebankedmemory.MakeBuilder().WithRegistrar(env).WithSpec(spec).Build(name)
 			comp, st = c, c.Resources().Storage
 		default:
-			spec, ok := DRAMPreset(cfg.Memory)
+			spec, ok := simx.DRAMPreset(cfg.Memory)
 			if !ok {
-				panic("simx: unknown memory kind " + cfg.Memory)
-			}
-			if cfg.DRAMQ == 1 {
-				spec.TransactionQueueSize = 2
-				spec.CommandQueueCapacity = 2
+				panic("grpc2: unknown memory kind " + cfg.Memory)
 			}
 			c := dram.MakeBuilder().WithRegistrar(env).WithSpec(spec).Build(name)
-			ch.DRAM = append(ch.DRAM, c)
 			comp, st = c, c.Resources().Storage
 		}
 		env.AssignPorts(comp, cfg.PortBuf, "Top", "Control")
@@ -147,7 +71,7 @@ func BuildChain(cfg ChainCfg, ops []MemOp) *Chain {
 		if len(memRemotes) == 1 {
 			return &mem.SinglePortMapper{Port: memRemotes[0]}
 		}
-		m := mem.NewInterleavedAddressPortMapper(LineSize)
+		m := mem.NewInterleavedAddressPortMapper(simx.LineSize)
 		m.LowModules = append(m.LowModules, memRemotes...)
 		return m
 	}
@@ -166,8 +90,8 @@ func BuildChain(cfg ChainCfg, ops []MemOp) *Chain {
 		switch kind {
 		case "wb":
 			spec := writeback.DefaultSpec()
-			spec.TotalByteSize = LineSize * CacheSets * CacheWays
-			spec.WayAssociativity = CacheWays
+			spec.TotalByteSize = simx.LineSize * simx.CacheSets * simx.CacheWays
+			spec.WayAssociativity = simx.CacheWays
 			spec.Log2BlockSize = 6
 			spec.NumMSHREntry = cfg.MSHR
 			spec.NumReqPerCycle = 1 + cfg.Lat%2
@@ -182,8 +106,8 @@ func BuildChain(cfg ChainCfg, ops []MemOp) *Chain {
 			comp = c
 		case "wt-around", "wt-evict", "wt-through":
 			spec := writethroughcache.DefaultSpec()
-			spec.TotalByteSize = LineSize * CacheSets * CacheWays
-			spec.WayAssociativity = CacheWays
+			spec.TotalByteSize = simx.LineSize * simx.CacheSets * simx.CacheWays
+			spec.WayAssociativity = simx.CacheWays
 			spec.Log2BlockSize = 6
 			spec.NumMSHREntry = cfg.MSHR
 			spec.NumReqPerCycle = 1 + cfg.Lat%2
@@ -197,7 +121,7 @@ func BuildChain(cfg ChainCfg, ops []MemOp) *Chain {
 			comp = c
 		case "rob":
 			if belowTop == "" {
-				panic("simx: a ROB needs a single lower module")
+				panic("grpc2: a ROB needs a single lower module")
 			}
 			spec := rob.DefaultSpec()
 			spec.BufferSize = 2 + cfg.Lat
@@ -207,7 +131,7 @@ func BuildChain(cfg ChainCfg, ops []MemOp) *Chain {
 			ch.ROB = append([]*rob.Comp{c}, ch.ROB...)
 			comp = c
 		default:
-			panic("simx: unknown stage kind " + kind)
+			panic("grpc2: unknown stage kind " + kind)
 		}
 		env.AssignPorts(comp, cfg.PortBuf, "Top", "Bottom", "Control")
 		conn.PlugIn(comp.GetPortByName("Top"))
@@ -229,54 +153,10 @@ func BuildChain(cfg ChainCfg, ops []MemOp) *Chain {
 		// no stage above two interleaved memories: the driver picks by address
 		targets = memRemotes
 		for i := range ops {
-			ops[i].Dst = int(ops[i].Addr / LineSize % uint64(len(memRemotes)))
+			ops[i].Dst = int(ops[i].Addr / simx.LineSize % uint64(len(memRemotes)))
 		}
 	}
-	ch.Driver = NewDriver(env, "Driver", ops, cfg.Eager, targets, cfg.PortBuf)
+	ch.Driver = simx.NewDriver(env, "Driver", ops, cfg.Eager, targets, cfg.PortBuf)
 	conn.PlugIn(ch.Driver.GetPortByName("Mem"))
 	return ch
-}
-
-// DRAMPreset resolves "dram-<PRESET>[-open]".
-func DRAMPreset(kind string) (dram.Spec, bool) {
-	// the presets use the close-page policy (the zero value); "-open" selects open-page
-	openPage := false
-	if len(kind) > 5 && kind[len(kind)-5:] == "-open" {
-		openPage = true
-		kind = kind[:len(kind)-5]
-	}
-	var spec dram.Spec
-	switch kind {
-	case "dram-DDR4":
-		spec = dram.DDR4Spec
-	case "dram-DDR5":
-		spec = dram.DDR5Spec
-	case "dram-HBM2":
-		spec = dram.HBM2Spec
-	case "dram-HBM3":
-		spec = dram.HBM3Spec
-	case "dram-GDDR6":
-		spec = dram.GDDR6Spec
-	default:
-		return spec, false
-	}
-	if openPage {
-		spec.PagePolicy = dram.PagePolicyOpen
-	}
-	return spec, true
-}
-
-// ReadBacking reads n bytes at addr from the memory controller that owns it.
-func (ch *Chain) ReadBacking(addr, n uint64) ([]byte, error) {
-	out := make([]byte, 0, n)
-	for i := uint64(0); i < n; i++ {
-		a := addr + i
-		st := ch.Backing[int(a/LineSize%uint64(len(ch.Backing)))]
-		b, err := st.Read(a, 1)
-		if err != nil {
-			return nil, err
-		}
-		out = append(out, b...)
-	}
-	return out, nil
 }
